@@ -1,6 +1,7 @@
 import PyCraft.Model.C05Nbt
 import PyCraft.Lemmas.Custom
 import PyCraft.Lemmas.Layout
+import PyCraft.Lemmas.LayoutTables
 /-!
 Helper lemmas for `Props/C05Nbt.lean`:
 
@@ -268,6 +269,802 @@ theorem readUtf8_nil : ∃ e, readUtf8 m [] = .error e :=
   ⟨.struct, by rw [readUtf8_eq, unpack_nil]; rfl⟩
 
 end strings
+
+/-! ## repeated reads -/
+
+theorem repeatRead_succ {α : Type} (f : Bytes → Except Err (α × Bytes)) (n : Nat) (bs : Bytes) :
+    repeatRead f (n + 1) bs =
+      (do let (v, r) ← f bs; (fun v r => do let (vs, r') ← repeatRead f n r; pure (v :: vs, r')) v r) :=
+  rfl
+
+theorem repeatRead_nil_soft {α : Type} {f : Bytes → Except Err (α × Bytes)} (h : SoftRes (f [])) :
+    ∀ n, SoftRes (repeatRead f n []) := by
+  intro n
+  induction n with
+  | zero => exact softRes_ok []
+  | succ n ih =>
+    rw [repeatRead_succ]
+    exact softRes_bind h (fun v r => do let (vs, r') ← repeatRead f n r; pure (v :: vs, r'))
+      fun y => ih.map (y :: ·)
+
+theorem soft_repeat_nil {α : Type} (f : Bytes → Except Err (α × Bytes)) :
+    Soft0 (repeatRead f 0) [] ([] : List α) :=
+  ⟨fun _ => rfl, fun _ hq hne => absurd (List.prefix_nil.mp hq) hne⟩
+
+theorem soft_repeat_cons {α : Type} {f : Bytes → Except Err (α × Bytes)} {a : Bytes} {x : α}
+    (hx : Soft0 f a x) (hnil : SoftRes (f [])) {n : Nat} {b : Bytes} {xs : List α}
+    (hxs : Soft0 (repeatRead f n) b xs) : Soft0 (repeatRead f (n + 1)) (a ++ b) (x :: xs) :=
+  hx.bind (fun v r => do let (vs, r') ← repeatRead f n r; pure (v :: vs, r'))
+    (hxs.map (x :: ·) _ fun _ => rfl) (fun y => (repeatRead_nil_soft hnil n).map (y :: ·)) _
+    (repeatRead_succ f n)
+
+/-- `struct.pack('>{n}i', *vs)` and the matching unpack -/
+theorem soft_ints (t : IntT) : ∀ vs : List Int, (∀ v ∈ vs, t.inDom v) →
+    ∃ body, packAll t vs = .ok body ∧ Soft0 (repeatRead t.unpack vs.length) body vs := by
+  intro vs
+  induction vs with
+  | nil => intro _; exact ⟨[], rfl, soft_repeat_nil _⟩
+  | cons v vs ih =>
+    intro h
+    obtain ⟨a, ha, _, hA⟩ := soft_int t v (h v List.mem_cons_self)
+    obtain ⟨b, hb, hB⟩ := ih fun w hw => h w (List.mem_cons_of_mem _ hw)
+    refine ⟨a ++ b, ?_, soft_repeat_cons (Soft0.ofHdr hA) (by rw [unpack_nil]; exact softRes_err _) hB⟩
+    show (do let a ← t.pack v; let b ← packAll t vs; pure (a ++ b)) = _
+    rw [ha, hb]; rfl
+
+/-! ## the payload readers, one nesting level -/
+
+section payload
+variable {m : Mutf8}
+
+theorem readPayload_succ (f ty : Nat) (bs : Bytes) :
+    readPayload m (f + 1) ty bs = readBody m (readPayload m f) ty bs := rfl
+
+theorem soft_scalar (t : IntT) (mk : Int → Tag) (v : Int) (hv : t.inDom v) :
+    ∃ bs, t.pack v = .ok bs ∧ bs ≠ [] ∧ Soft0 (readScalar t mk) bs (mk v) := by
+  obtain ⟨bs, hb, _, hH⟩ := soft_int t v hv
+  exact ⟨bs, hb, hH.1, Soft0.ofHdr (hH.map mk _ fun _ => rfl)⟩
+
+/-- what follows the length of a byte array -/
+def baBody (n : Int) (r : Bytes) : Except Err (Tag × Bytes) :=
+  pure (.byteArray (takeLenient n r).1, (takeLenient n r).2)
+
+theorem readBody_7 (rd : Nat → Bytes → Except Err (Tag × Bytes)) (bs : Bytes) :
+    readBody m rd 7 bs = (do let (n, r) ← IntT.i32.unpack bs; baBody n r) := rfl
+
+theorem soft_byteArray (rd : Nat → Bytes → Except Err (Tag × Bytes)) (b : Bytes)
+    (hb : b.length < 2 ^ 31) :
+    ∃ bs, savePayload m (.byteArray b) = .ok bs ∧ bs ≠ [] ∧ Soft0 (readBody m rd 7) bs (.byteArray b) := by
+  obtain ⟨h, hh, hl, hH⟩ := soft_int .i32 _ (i32_inDom_len _ hb)
+  refine ⟨h ++ b, ?_, by simp [hH.1], ?_⟩
+  · show (do let h ← IntT.i32.pack (b.length : Int); pure (h ++ b)) = _
+    rw [hh]; rfl
+  · refine (Soft0.ofHdr hH).bind baBody ⟨fun rest => ?_, fun q hq hne => ?_⟩ (fun y => ?_) _
+      (readBody_7 rd)
+    · unfold baBody; rw [takeLenient_exact]; rfl
+    · unfold baBody
+      rw [takeLenient_short _ q (Nat.le_of_lt (prefix_length_lt hq hne))]
+      exact softRes_ok _
+    · unfold baBody; rw [takeLenient_nil]; exact softRes_ok _
+
+theorem readBody_8 (rd : Nat → Bytes → Except Err (Tag × Bytes)) (bs : Bytes) :
+    readBody m rd 8 bs = (do let (s, r) ← readUtf8 m bs; pure (Tag.string s, r)) := rfl
+
+theorem soft_string (hm : Mutf8Law m) (rd : Nat → Bytes → Except Err (Tag × Bytes)) (s : String)
+    (hs : (m.enc s).length < 2 ^ 15) :
+    ∃ bs, savePayload m (.string s) = .ok bs ∧ bs ≠ [] ∧ Soft0 (readBody m rd 8) bs (.string s) := by
+  obtain ⟨bs, h1, h2, h3⟩ := soft_utf8 hm s hs
+  exact ⟨bs, h1, h2, h3.map Tag.string _ (readBody_8 rd)⟩
+
+/-- what follows the length of an int / long array -/
+def iaBody (t : IntT) (mk : List Int → Tag) (n : Int) (r : Bytes) : Except Err (Tag × Bytes) := do
+  if n < 0 then throw .struct
+  let (vs, r') ← repeatRead t.unpack n.toNat r
+  pure (mk vs, r')
+
+theorem readIntArray_eq (t : IntT) (mk : List Int → Tag) (bs : Bytes) :
+    readIntArray t mk bs = (do let (n, r) ← IntT.i32.unpack bs; iaBody t mk n r) := rfl
+
+theorem iaBody_nat (t : IntT) (mk : List Int → Tag) (n : Nat) (r : Bytes) :
+    iaBody t mk (n : Int) r = (do let (vs, r') ← repeatRead t.unpack n r; pure (mk vs, r')) := by
+  unfold iaBody
+  rw [if_neg (by omega)]
+  rfl
+
+theorem iaBody_nil (t : IntT) (mk : List Int → Tag) (n : Int) : SoftRes (iaBody t mk n []) := by
+  by_cases h : n < 0
+  · unfold iaBody; rw [if_pos h]; exact softRes_err _
+  · obtain ⟨k, rfl⟩ := Int.eq_ofNat_of_zero_le (by omega : 0 ≤ n)
+    rw [iaBody_nat]
+    exact (repeatRead_nil_soft (by rw [unpack_nil]; exact softRes_err _) k).map mk
+
+theorem soft_intArray (t : IntT) (mk : List Int → Tag) (vs : List Int) (hl : vs.length < 2 ^ 31)
+    (hv : ∀ v ∈ vs, t.inDom v) :
+    ∃ h body, IntT.i32.pack (vs.length : Int) = .ok h ∧ packAll t vs = .ok body ∧ h ++ body ≠ [] ∧
+      Soft0 (readIntArray t mk) (h ++ body) (mk vs) := by
+  obtain ⟨h, hh, _, hH⟩ := soft_int .i32 _ (i32_inDom_len _ hl)
+  obtain ⟨body, hb, hB⟩ := soft_ints t vs hv
+  refine ⟨h, body, hh, hb, by simp [hH.1], ?_⟩
+  refine (Soft0.ofHdr hH).bind (iaBody t mk) ?_ (iaBody_nil t mk) _ (readIntArray_eq t mk)
+  exact hB.map mk _ (iaBody_nat t mk _)
+
+theorem readBody_11 (rd : Nat → Bytes → Except Err (Tag × Bytes)) (bs : Bytes) :
+    readBody m rd 11 bs = readIntArray .i32 .intArray bs := rfl
+
+theorem readBody_12 (rd : Nat → Bytes → Except Err (Tag × Bytes)) (bs : Bytes) :
+    readBody m rd 12 bs = readIntArray .i64 .longArray bs := rfl
+
+/-! ### lists -/
+
+def listB2 (rd : Nat → Bytes → Except Err (Tag × Bytes)) (tt len : Int) (r : Bytes) :
+    Except Err (Tag × Bytes) := do
+  let c ← tagClass tt
+  let (items, r') ← repeatRead (rd c) len.toNat r
+  pure (.list c items, r')
+
+def listB1 (rd : Nat → Bytes → Except Err (Tag × Bytes)) (tt : Int) (r : Bytes) :
+    Except Err (Tag × Bytes) := do
+  let (len, r') ← IntT.i32.unpack r
+  listB2 rd tt len r'
+
+theorem readBody_9 (rd : Nat → Bytes → Except Err (Tag × Bytes)) (bs : Bytes) :
+    readBody m rd 9 bs = (do let (tt, r) ← IntT.i8.unpack bs; listB1 rd tt r) := rfl
+
+theorem listB2_id (rd : Nat → Bytes → Except Err (Tag × Bytes)) (ty : Nat) (hty : ty ≤ 12) (n : Nat)
+    (r : Bytes) :
+    listB2 rd (ty : Int) (n : Int) r =
+      (do let (items, r') ← repeatRead (rd ty) n r; pure (Tag.list ty items, r')) := by
+  unfold listB2
+  rw [tagClass_id ty hty]
+  rfl
+
+theorem listB2_nil (rd : Nat → Bytes → Except Err (Tag × Bytes))
+    (hrd : ∀ c, SoftRes (rd c [])) (tt len : Int) : SoftRes (listB2 rd tt len []) := by
+  unfold listB2
+  cases tagClass tt with
+  | error e => exact softRes_err e
+  | ok c => exact (repeatRead_nil_soft (hrd c) len.toNat).map (Tag.list c)
+
+theorem soft_list (rd : Nat → Bytes → Except Err (Tag × Bytes)) (hrd : ∀ c, SoftRes (rd c []))
+    (ty : Nat) (hty : ty ≤ 12) (items : List Tag) (hl : items.length < 2 ^ 31) (body : Bytes)
+    (hB : Soft0 (repeatRead (rd ty) items.length) body items) :
+    ∃ h1 h2, IntT.i8.pack (ty : Int) = .ok h1 ∧ IntT.i32.pack (items.length : Int) = .ok h2 ∧
+      h1 ++ h2 ++ body ≠ [] ∧ Soft0 (readBody m rd 9) (h1 ++ h2 ++ body) (.list ty items) := by
+  obtain ⟨h1, hh1, _, hH1⟩ := soft_int .i8 _ (i8_inDom_id ty hty)
+  obtain ⟨h2, hh2, _, hH2⟩ := soft_int .i32 _ (i32_inDom_len _ hl)
+  refine ⟨h1, h2, hh1, hh2, by simp [hH1.1], ?_⟩
+  rw [List.append_assoc]
+  refine (Soft0.ofHdr hH1).bind (listB1 rd) ?_ (fun y => ?_) _ (readBody_9 rd)
+  · refine (Soft0.ofHdr hH2).bind (listB2 rd ty) ?_ (listB2_nil rd hrd ty) _ (fun _ => rfl)
+    exact hB.map (Tag.list ty) _ (listB2_id rd ty hty _)
+  · unfold listB1; exact softRes_unpack_nil _ _
+
+/-! ### compounds -/
+
+/-- one iteration of the loop after the tag byte -/
+def loopStep (rn : Nat → Bytes → Except Err ((String × Tag) × Bytes)) (k : Nat) (acc : Entries)
+    (tag : Int) (r : Bytes) : Except Err (Entries × Bytes) :=
+  if tag = 0 then pure (acc, r) else do
+    let c ← tagClass tag
+    let (e, r') ← rn c r
+    entriesLoop rn k (dictSet acc e.1 e.2) r'
+
+theorem entriesLoop_succ (rn : Nat → Bytes → Except Err ((String × Tag) × Bytes)) (k : Nat)
+    (acc : Entries) (bs : Bytes) :
+    entriesLoop rn (k + 1) acc bs = (do let (tag, r) ← IntT.i8.unpack bs; loopStep rn k acc tag r) :=
+  rfl
+
+theorem entriesLoop_nil (rn : Nat → Bytes → Except Err ((String × Tag) × Bytes)) (k : Nat)
+    (acc : Entries) : ∃ e, entriesLoop rn k acc [] = .error e := by
+  cases k with
+  | zero => exact ⟨_, rfl⟩
+  | succ k => exact ⟨.struct, by rw [entriesLoop_succ, unpack_nil]; rfl⟩
+
+theorem loopStep_id (rn : Nat → Bytes → Except Err ((String × Tag) × Bytes)) (k : Nat)
+    (acc : Entries) (c : Nat) (h0 : c ≠ 0) (hc : c ≤ 12) (r : Bytes) :
+    loopStep rn k acc (c : Int) r =
+      (do let (e, r') ← rn c r; entriesLoop rn k (dictSet acc e.1 e.2) r') := by
+  unfold loopStep
+  rw [if_neg (by omega), tagClass_id c hc]
+  rfl
+
+theorem readNamed_eq (rd : Nat → Bytes → Except Err (Tag × Bytes)) (c : Nat) (bs : Bytes) :
+    readNamed m rd c bs =
+      (do let (name, r) ← readUtf8 m bs
+          (fun name r => do let (t, r') ← rd c r; pure ((name, t), r')) name r) := rfl
+
+/-- a named child: its key, then its payload -/
+theorem soft_named (hm : Mutf8Law m) (rd : Nat → Bytes → Except Err (Tag × Bytes))
+    (hrd : ∀ c, SoftRes (rd c [])) (c : Nat) (key : String) (hk : (m.enc key).length < 2 ^ 15)
+    (t : Tag) (p : Bytes) (hp : Soft0 (rd c) p t) :
+    ∃ n, writeUtf8 m key = .ok n ∧ Soft0 (readNamed m rd c) (n ++ p) (key, t) := by
+  obtain ⟨n, hn, _, hN⟩ := soft_utf8 hm key hk
+  refine ⟨n, hn, hN.bind (fun name r => do let (t, r') ← rd c r; pure ((name, t), r'))
+    (hp.map (fun t => (key, t)) _ fun _ => rfl) (fun y => ?_) _ (readNamed_eq (m := m) rd c)⟩
+  exact (hrd c).map fun t => (y, t)
+
+theorem dictSet_fresh : ∀ (acc : Entries) (k : String) (t : Tag), k ∉ acc.map (·.1) →
+    dictSet acc k t = acc ++ [(k, t)] := by
+  intro acc
+  induction acc with
+  | nil => intros; rfl
+  | cons a acc ih =>
+    intro k t h
+    obtain ⟨k', t'⟩ := a
+    simp only [List.map_cons, List.mem_cons, not_or] at h
+    simp only [dictSet, if_neg (Ne.symm h.1), ih k t h.2, List.cons_append]
+
+theorem readBody_10 (rd : Nat → Bytes → Except Err (Tag × Bytes)) (bs : Bytes) :
+    readBody m rd 10 bs =
+      (do let (es, r) ← entriesLoop (readNamed m rd) (bs.length + 1) [] bs
+          pure (Tag.compound es, r)) := rfl
+
+theorem i8_zero (rest : Bytes) : IntT.i8.unpack (0 :: rest) = .ok (0, rest) := by
+  have := (hdr_int .i8 0 [0] (by decide) (by decide)).2.1 rest
+  simpa using this
+
+theorem readBody_nil (rd : Nat → Bytes → Except Err (Tag × Bytes)) (ty : Nat) :
+    ∃ e, readBody m rd ty [] = .error e := by
+  unfold readBody
+  split <;> first | exact ⟨.struct, rfl⟩ | exact ⟨.other, rfl⟩
+
+theorem readPayload_nil (f ty : Nat) : ∃ e, readPayload m f ty [] = .error e := by
+  cases f with
+  | zero => exact ⟨_, rfl⟩
+  | succ f => exact readBody_nil _ ty
+
+theorem readPayload_nil_soft (f ty : Nat) : SoftRes (readPayload m f ty []) :=
+  Or.inl (readPayload_nil f ty)
+
+/-- an error of the first reader is an error of the sequence; so is a soft success when the second
+reader rejects the empty input -/
+theorem err_bind_of_softRes {α β : Type} {r : Except Err (α × Bytes)} (hr : SoftRes r)
+    (B : α → Bytes → Except Err (β × Bytes)) (hnil : ∀ y, ∃ e, B y [] = .error e) :
+    ∃ e, (do let (v, s) ← r; B v s) = .error e := by
+  rcases hr with ⟨e, rfl⟩ | ⟨y, rfl⟩
+  · exact ⟨e, rfl⟩
+  · exact hnil y
+
+/-! ## the induction over tags -/
+
+theorem succ_of_depth {d f : Nat} (h : d + 1 ≤ f) : ∃ f', f = f' + 1 ∧ d ≤ f' :=
+  ⟨f - 1, by omega, by omega⟩
+
+mutual
+  /-- a well-formed tag of depth ≤ `f`: its payload is written, is not empty, is read back by
+  `readPayload m f` whatever follows, and a strict prefix of it is rejected or eaten whole -/
+  theorem payload_soft (hm : Mutf8Law m) : ∀ (t : Tag) (f : Nat), t.wf m = true → t.depth ≤ f →
+      ∃ bs, savePayload m t = .ok bs ∧ bs ≠ [] ∧ Soft0 (readPayload m f t.tagId) bs t
+    | .end_ _, _, hw, _ => by simp [Tag.wf] at hw
+    | .byte v, f, hw, hd => by
+      obtain ⟨f, rfl, _⟩ := succ_of_depth (d := 0) (by simpa [Tag.depth] using hd)
+      simp only [Tag.wf, decide_eq_true_eq] at hw
+      exact soft_scalar .i8 .byte v hw
+    | .short v, f, hw, hd => by
+      obtain ⟨f, rfl, _⟩ := succ_of_depth (d := 0) (by simpa [Tag.depth] using hd)
+      simp only [Tag.wf, decide_eq_true_eq] at hw
+      exact soft_scalar .i16 .short v hw
+    | .int v, f, hw, hd => by
+      obtain ⟨f, rfl, _⟩ := succ_of_depth (d := 0) (by simpa [Tag.depth] using hd)
+      simp only [Tag.wf, decide_eq_true_eq] at hw
+      exact soft_scalar .i32 .int v hw
+    | .long v, f, hw, hd => by
+      obtain ⟨f, rfl, _⟩ := succ_of_depth (d := 0) (by simpa [Tag.depth] using hd)
+      simp only [Tag.wf, decide_eq_true_eq] at hw
+      exact soft_scalar .i64 .long v hw
+    | .float v, f, hw, hd => by
+      obtain ⟨f, rfl, _⟩ := succ_of_depth (d := 0) (by simpa [Tag.depth] using hd)
+      simp only [Tag.wf, decide_eq_true_eq] at hw
+      exact soft_scalar .f32 .float v hw
+    | .double v, f, hw, hd => by
+      obtain ⟨f, rfl, _⟩ := succ_of_depth (d := 0) (by simpa [Tag.depth] using hd)
+      simp only [Tag.wf, decide_eq_true_eq] at hw
+      exact soft_scalar .f64 .double v hw
+    | .byteArray b, f, hw, hd => by
+      obtain ⟨f, rfl, _⟩ := succ_of_depth (d := 0) (by simpa [Tag.depth] using hd)
+      simp only [Tag.wf, decide_eq_true_eq] at hw
+      exact soft_byteArray (m := m) (readPayload m f) b hw
+    | .string s, f, hw, hd => by
+      obtain ⟨f, rfl, _⟩ := succ_of_depth (d := 0) (by simpa [Tag.depth] using hd)
+      simp only [Tag.wf, decide_eq_true_eq] at hw
+      exact soft_string hm (readPayload m f) s hw
+    | .intArray vs, f, hw, hd => by
+      obtain ⟨f, rfl, _⟩ := succ_of_depth (d := 0) (by simpa [Tag.depth] using hd)
+      simp only [Tag.wf, Bool.and_eq_true, decide_eq_true_eq, List.all_eq_true] at hw
+      obtain ⟨h, body, hh, hb, hne, hS⟩ := soft_intArray .i32 .intArray vs hw.1 hw.2
+      refine ⟨h ++ body, ?_, hne, hS⟩
+      show (do let h ← IntT.i32.pack (vs.length : Int); let b ← packAll .i32 vs; pure (h ++ b)) = _
+      rw [hh, hb]; rfl
+    | .longArray vs, f, hw, hd => by
+      obtain ⟨f, rfl, _⟩ := succ_of_depth (d := 0) (by simpa [Tag.depth] using hd)
+      simp only [Tag.wf, Bool.and_eq_true, decide_eq_true_eq, List.all_eq_true] at hw
+      obtain ⟨h, body, hh, hb, hne, hS⟩ := soft_intArray .i64 .longArray vs hw.1 hw.2
+      refine ⟨h ++ body, ?_, hne, hS⟩
+      show (do let h ← IntT.i32.pack (vs.length : Int); let b ← packAll .i64 vs; pure (h ++ b)) = _
+      rw [hh, hb]; rfl
+    | .list ty items, f, hw, hd => by
+      obtain ⟨f, rfl, hd'⟩ := succ_of_depth (by simpa [Tag.depth] using hd)
+      simp only [Tag.wf, Bool.and_eq_true, decide_eq_true_eq] at hw
+      obtain ⟨⟨hty, hl⟩, hwi⟩ := hw
+      obtain ⟨body, hb, hB⟩ := items_soft hm items ty f hwi hd'
+      obtain ⟨h1, h2, hh1, hh2, hne, hS⟩ :=
+        soft_list (m := m) (readPayload m f) (readPayload_nil_soft f) ty hty items hl body hB
+      refine ⟨h1 ++ h2 ++ body, ?_, hne, hS⟩
+      rw [savePayload, if_neg (by omega)]
+      show (do let h1 ← IntT.i8.pack (ty : Int); let h2 ← IntT.i32.pack (items.length : Int)
+               let body ← saveItems m ty items; pure (h1 ++ h2 ++ body)) = _
+      rw [hh1, hh2, hb]; rfl
+    | .compound es, f, hw, hd => by
+      obtain ⟨f, rfl, hd'⟩ := succ_of_depth (by simpa [Tag.depth] using hd)
+      simp only [Tag.wf, Bool.and_eq_true] at hw
+      obtain ⟨hk, hwe⟩ := hw
+      obtain ⟨body, hb, hlen, hex, hpre⟩ := entries_soft hm es f hwe hd'
+      refine ⟨body ++ [0], ?_, by simp, fun rest => ?_, fun q hq hne => Or.inl ?_⟩
+      · rw [savePayload, hk]
+        show (do let body ← saveEntries m es; pure (body ++ [0])) = _
+        rw [hb]; rfl
+      · show readBody m (readPayload m f) 10 (body ++ [0] ++ rest) = _
+        rw [readBody_10]
+        have e : body ++ [0] ++ rest = body ++ 0 :: rest := by simp
+        rw [e, hex _ [] rest (by simp; omega) (by simp)
+          (by simpa [keysOk] using hk)]
+        rfl
+      · show ∃ e, readBody m (readPayload m f) 10 q = .error e
+        rw [readBody_10]
+        obtain ⟨e, he⟩ := hpre (q.length + 1) [] q hq hne
+        exact ⟨e, by rw [he]; rfl⟩
+  theorem items_soft (hm : Mutf8Law m) : ∀ (ts : List Tag) (ty f : Nat),
+      wfItems m ty ts = true → depthItems ts ≤ f →
+      ∃ body, saveItems m ty ts = .ok body ∧
+        Soft0 (repeatRead (readPayload m f ty) ts.length) body ts
+    | [], _, _, _, _ => ⟨[], rfl, soft_repeat_nil _⟩
+    | t :: ts, ty, f, hw, hd => by
+      simp only [wfItems, Bool.and_eq_true, decide_eq_true_eq] at hw
+      obtain ⟨⟨hid, hwt⟩, hws⟩ := hw
+      simp only [depthItems] at hd
+      have hd1 : t.depth ≤ f := Nat.le_trans (Nat.le_max_left _ _) hd
+      have hd2 : depthItems ts ≤ f := Nat.le_trans (Nat.le_max_right _ _) hd
+      obtain ⟨a, ha, _, hA⟩ := payload_soft hm t f hwt hd1
+      obtain ⟨b, hb, hB⟩ := items_soft hm ts ty f hws hd2
+      rw [hid] at hA
+      refine ⟨a ++ b, ?_, soft_repeat_cons hA (readPayload_nil_soft f ty) hB⟩
+      rw [saveItems, if_neg (by simpa using hid)]
+      show (do let a ← savePayload m t; let b ← saveItems m ty ts; pure (a ++ b)) = _
+      rw [ha, hb]; rfl
+  /-- the children of a compound, followed by the `TAG_End` byte: read back by the loop (given enough
+  iterations and keys not yet in the accumulator); EVERY strict prefix is rejected -/
+  theorem entries_soft (hm : Mutf8Law m) : ∀ (es : Entries) (f : Nat),
+      wfEntries m es = true → depthEntries es ≤ f →
+      ∃ body, saveEntries m es = .ok body ∧ es.length ≤ body.length ∧
+        (∀ k acc rest, es.length < k → (∀ e ∈ es, e.1 ∉ acc.map (·.1)) → (es.map (·.1)).Nodup →
+          entriesLoop (readNamed m (readPayload m f)) k acc (body ++ 0 :: rest)
+            = .ok (acc ++ es, rest)) ∧
+        ∀ k acc q, q <+: body ++ [0] → q ≠ body ++ [0] →
+          ∃ e, entriesLoop (readNamed m (readPayload m f)) k acc q = .error e
+    | [], f, _, _ => by
+      refine ⟨[], rfl, Nat.le_refl _, fun k acc rest hk _ _ => ?_, fun k acc q hq hne => ?_⟩
+      · obtain ⟨k, rfl⟩ : ∃ k', k = k' + 1 := ⟨k - 1, by simp at hk; omega⟩
+        rw [List.nil_append, entriesLoop_succ, i8_zero]
+        simp [loopStep, pure, Except.pure, bind, Except.bind]
+      · have : q = [] := by
+          rcases q with _ | ⟨c, q⟩
+          · rfl
+          · simp only [List.nil_append, List.cons_prefix_cons, List.prefix_nil] at hq
+            exact absurd (by rw [hq.1, hq.2]; rfl) hne
+        subst this
+        exact entriesLoop_nil _ k acc
+    | (key, t) :: es, f, hw, hd => by
+      simp only [wfEntries, Bool.and_eq_true, decide_eq_true_eq] at hw
+      obtain ⟨⟨hkey, hwt⟩, hws⟩ := hw
+      simp only [depthEntries] at hd
+      have hd1 : t.depth ≤ f := Nat.le_trans (Nat.le_max_left _ _) hd
+      have hd2 : depthEntries es ≤ f := Nat.le_trans (Nat.le_max_right _ _) hd
+      obtain ⟨p, hp, _, hP⟩ := payload_soft hm t f hwt hd1
+      obtain ⟨r, hr, hlen, hex, hpre⟩ := entries_soft hm es f hws hd2
+      have hid0 : t.tagId ≠ 0 := by
+        intro h0; cases t <;> simp [Tag.tagId] at h0; simp [Tag.wf] at hwt
+      have hid12 : t.tagId ≤ 12 := by cases t <;> simp [Tag.tagId]
+      obtain ⟨i, hi, hil, hI⟩ := soft_int .i8 _ (i8_inDom_id _ hid12)
+      obtain ⟨n, hn, hN⟩ := soft_named hm (readPayload m f) (readPayload_nil_soft f) t.tagId key hkey
+        t p hP
+      refine ⟨i ++ n ++ p ++ r, ?_, ?_, fun k acc rest hk hfresh hnd => ?_, fun k acc q hq hne => ?_⟩
+      · rw [saveEntries]
+        show (do let i ← IntT.i8.pack (t.tagId : Int); let n ← writeUtf8 m key
+                 let p ← savePayload m t; let r ← saveEntries m es; pure (i ++ n ++ p ++ r)) = _
+        rw [hi, hn, hp, hr]; rfl
+      · simp only [List.length_cons, List.length_append, hil, IntT.width]; omega
+      · obtain ⟨k, rfl⟩ : ∃ k', k = k' + 1 := ⟨k - 1, by simp at hk; omega⟩
+        have e : i ++ n ++ p ++ r ++ 0 :: rest = i ++ ((n ++ p) ++ (r ++ 0 :: rest)) := by simp
+        rw [e, entriesLoop_succ, hI.2.1, ]
+        show loopStep _ k acc (t.tagId : Int) _ = _
+        rw [loopStep_id _ k acc t.tagId hid0 hid12, hN.1]
+        show entriesLoop _ k (dictSet acc key t) (r ++ 0 :: rest) = _
+        have hkf : key ∉ acc.map (·.1) := hfresh (key, t) List.mem_cons_self
+        simp only [List.map_cons, List.nodup_cons] at hnd
+        rw [dictSet_fresh acc key t hkf, hex k _ rest (by simp at hk; omega) ?_ hnd.2]
+        · simp
+        · intro e he
+          simp only [List.map_append, List.map_cons, List.map_nil, List.mem_append,
+            List.mem_singleton, not_or]
+          refine ⟨hfresh e (List.mem_cons_of_mem _ he), fun h => hnd.1 ?_⟩
+          rw [← h]; exact List.mem_map.mpr ⟨e, he, rfl⟩
+      · cases k with
+        | zero => exact ⟨_, rfl⟩
+        | succ k =>
+          have e : i ++ n ++ p ++ r ++ [0] = i ++ ((n ++ p) ++ (r ++ [0])) := by simp
+          rw [e] at hq hne
+          rw [entriesLoop_succ]
+          rcases strict_prefix_append hq hne with ⟨hq', hne'⟩ | ⟨q1, rfl, hq1, hne1⟩
+          · obtain ⟨e, he⟩ := hI.2.2 q hq' hne'
+            exact ⟨e, by rw [he]; rfl⟩
+          · rw [hI.2.1]
+            show ∃ e, loopStep _ k acc (t.tagId : Int) q1 = .error e
+            rw [loopStep_id _ k acc t.tagId hid0 hid12]
+            rcases strict_prefix_append hq1 hne1 with ⟨hq', hne'⟩ | ⟨q2, rfl, hq2, hne2⟩
+            · exact err_bind_of_softRes (hN.2 q1 hq' hne')
+                (fun e r' => entriesLoop (readNamed m (readPayload m f)) k (dictSet acc e.1 e.2) r')
+                fun y => entriesLoop_nil _ k _
+            · rw [hN.1]
+              exact hpre k _ q2 hq2 hne2
+end
+
+/-! ## the root: `NBTFile.save` / `NBTFile(io=…)` -/
+
+/-- `loadFile` after the 0x0A byte -/
+def fileBody (m : Mutf8) (fuel : Nat) (r : Bytes) : Except Err ((String × Entries) × Bytes) := do
+  let (name, r') ← readUtf8 m r
+  (fun name r' => do
+    let (es, r'') ← entriesLoop (readNamed m (readPayload m fuel)) (r'.length + 1) [] r'
+    pure ((name, es), r'')) name r'
+
+theorem i8_ten (rest : Bytes) : IntT.i8.unpack (10 :: rest) = .ok (10, rest) := by
+  have := (hdr_int .i8 10 [10] (by decide) (by decide)).2.1 rest
+  simpa using this
+
+theorem loadFile_ten (fuel : Nat) (r : Bytes) : loadFile m fuel (10 :: r) = fileBody m fuel r := by
+  unfold loadFile
+  rw [i8_ten]
+  rfl
+
+theorem loadFile_nil (fuel : Nat) : loadFile m fuel [] = .error .struct := by
+  unfold loadFile
+  rw [unpack_nil]
+  rfl
+
+/-- the whole file: written, read back whatever follows, and NO strict prefix is accepted -/
+theorem file_rt (hm : Mutf8Law m) (es : Entries) (fuel : Nat) (hk : keysOk es = true)
+    (hw : wfEntries m es = true) (hd : depthEntries es ≤ fuel) :
+    ∃ bs, saveFile m "" es = .ok bs ∧ bs ≠ [] ∧
+      (∀ rest, loadFile m fuel (bs ++ rest) = .ok (("", es), rest)) ∧
+      ∀ p, p <+: bs → p ≠ bs → ∃ e, loadFile m fuel p = .error e := by
+  obtain ⟨n, hn, _, hN⟩ := soft_utf8 hm "" (by rw [hm.empty]; decide)
+  obtain ⟨body, hb, hlen, hex, hpre⟩ := entries_soft hm es fuel hw hd
+  refine ⟨10 :: (n ++ body ++ [0]), ?_, by simp, fun rest => ?_, fun p hp hne => ?_⟩
+  · unfold saveFile
+    rw [hk]
+    show (do let n ← writeUtf8 m ""; let body ← saveEntries m es; pure (10 :: n ++ body ++ [0])) = _
+    rw [hn, hb]; rfl
+  · have e : 10 :: (n ++ body ++ [0]) ++ rest = 10 :: (n ++ (body ++ 0 :: rest)) := by simp
+    rw [e, loadFile_ten]
+    unfold fileBody
+    rw [hN.1]
+    show (do let (es, r'') ← entriesLoop _ ((body ++ 0 :: rest).length + 1) [] (body ++ 0 :: rest)
+             pure (("", es), r'')) = _
+    rw [hex _ [] rest (by simp; omega) (by simp) (by simpa [keysOk] using hk)]
+    rfl
+  · rcases p with _ | ⟨c, p⟩
+    · exact ⟨_, loadFile_nil fuel⟩
+    · have e : 10 :: (n ++ body ++ [0]) = 10 :: (n ++ (body ++ [0])) := by simp
+      rw [e] at hp hne
+      rw [List.cons_prefix_cons] at hp
+      obtain ⟨rfl, hp⟩ := hp
+      have hne' : p ≠ n ++ (body ++ [0]) := fun h => hne (by rw [h])
+      rw [loadFile_ten]
+      unfold fileBody
+      rcases strict_prefix_append hp hne' with ⟨hq', hne''⟩ | ⟨q, rfl, hq, hqne⟩
+      · exact err_bind_of_softRes (hN.2 p hq' hne'')
+          (fun name r' => do
+            let (es, r'') ← entriesLoop (readNamed m (readPayload m fuel)) (r'.length + 1) [] r'
+            pure ((name, es), r''))
+          fun y => by
+            obtain ⟨e, he⟩ := entriesLoop_nil (readNamed m (readPayload m fuel)) (0 + 1) []
+            exact ⟨e, by show (do let (es, r'') ← entriesLoop _ (0 + 1) [] []; pure ((y, es), r'')) = _
+                         rw [he]; rfl⟩
+      · rw [hN.1]
+        obtain ⟨e, he⟩ := hpre (q.length + 1) [] q hq hqne
+        exact ⟨e, by show (do let (es, r'') ← entriesLoop _ (q.length + 1) [] q
+                              pure (("", es), r'')) = _
+                     rw [he]; rfl⟩
+
+end payload
+
+/-! ## tags as values -/
+
+mutual
+  theorem ofValue_toValue : ∀ t : Tag, ofValue t.toValue = some t
+    | .end_ _ | .byte _ | .short _ | .int _ | .long _ | .float _ | .double _ | .byteArray _
+    | .string _ => rfl
+    | .list ty items => by
+      simp only [Tag.toValue, ofValue]
+      rw [if_pos (by omega), ofValues_items items]
+      simp
+    | .compound es => by
+      simp only [Tag.toValue, ofValue]
+      rw [ofEntries_entries es]; rfl
+    | .intArray vs => by
+      simp only [Tag.toValue, Value.ofInts, ofValue]
+      rw [intsOf_map]; rfl
+    | .longArray vs => by
+      simp only [Tag.toValue, Value.ofInts, ofValue]
+      rw [intsOf_map]; rfl
+  theorem ofValues_items : ∀ ts : List Tag, ofValues (itemsToValue ts) = some ts
+    | [] => rfl
+    | t :: ts => by
+      simp only [itemsToValue, ofValues]
+      rw [ofValue_toValue t, ofValues_items ts]; rfl
+  theorem ofEntries_entries : ∀ es : Entries, ofEntries (entriesToValue es) = some es
+    | [] => rfl
+    | (k, t) :: es => by
+      simp only [entriesToValue, ofEntries]
+      rw [ofValue_toValue t, ofEntries_entries es]; rfl
+end
+
+theorem ofRootValue_rootValue (name : String) (es : Entries) :
+    ofRootValue (rootValue name es) = some (name, es) := by
+  simp only [rootValue, ofRootValue]
+  rw [ofEntries_entries]; rfl
+
+mutual
+  theorem valEqb_sound : ∀ a b : Value, valEqb a b = true → a = b
+    | .bool a, b, h => by cases b <;> simp [valEqb] at h; rw [h]
+    | .int a, b, h => by cases b <;> simp [valEqb] at h; rw [h]
+    | .bytes a, b, h => by cases b <;> simp [valEqb] at h; rw [h]
+    | .str a, b, h => by cases b <;> simp [valEqb] at h; rw [h]
+    | .list a, .list b, h => by
+      simp only [valEqb] at h; rw [valsEqb_sound a b h]
+    | .list _, .bool _, h | .list _, .int _, h | .list _, .bytes _, h | .list _, .str _, h => by
+      simp [valEqb] at h
+  theorem valsEqb_sound : ∀ a b : List Value, valsEqb a b = true → a = b
+    | [], [], _ => rfl
+    | a :: as, b :: bs, h => by
+      simp only [valsEqb, Bool.and_eq_true] at h
+      rw [valEqb_sound a b h.1, valsEqb_sound as bs h.2]
+    | [], _ :: _, h | _ :: _, [], h => by simp [valsEqb] at h
+end
+
+mutual
+  theorem valEqb_refl : ∀ a : Value, valEqb a a = true
+    | .bool _ | .int _ | .bytes _ | .str _ => by simp [valEqb]
+    | .list a => by simp only [valEqb]; exact valsEqb_refl a
+  theorem valsEqb_refl : ∀ a : List Value, valsEqb a a = true
+    | [] => rfl
+    | a :: as => by simp only [valsEqb, valEqb_refl a, valsEqb_refl as, Bool.and_self]
+end
+
+/-- what `nbtDom` says: the value is a root named `''` over well-formed children -/
+theorem nbtDom_iff (m : Mutf8) (v : Value) :
+    nbtDom m v ↔ ∃ es, v = rootValue "" es ∧ rootWf m es = true := by
+  constructor
+  · intro h
+    unfold nbtDom nbtDomB at h
+    split at h
+    · exact absurd h (by simp)
+    · next name es _ =>
+      simp only [Bool.and_eq_true, beq_iff_eq] at h
+      obtain ⟨⟨rfl, hw⟩, he⟩ := h
+      exact ⟨es, (valEqb_sound _ _ he).symm, hw⟩
+  · rintro ⟨es, rfl, hw⟩
+    unfold nbtDom nbtDomB
+    rw [ofRootValue_rootValue]
+    simp [hw, valEqb_refl]
+
+/-! ## the law of the modelled `NBT` type -/
+
+theorem pynbtLaw {m : Mutf8} (hm : Mutf8Law m) : NbtLaw (pynbt m) (nbtDom m) := by
+  have key : ∀ v, nbtDom m v → ∃ es bs, v = rootValue "" es ∧ nbtSend m v = .ok bs ∧ bs ≠ [] ∧
+      (∀ rest, nbtRead m (bs ++ rest) = .ok (v, rest)) ∧
+      ∀ p, p <+: bs → p ≠ bs → ∃ e, nbtRead m p = .error e := by
+    intro v hv
+    obtain ⟨es, rfl, hw⟩ := (nbtDom_iff m v).mp hv
+    simp only [rootWf, Bool.and_eq_true, decide_eq_true_eq] at hw
+    obtain ⟨bs, h1, h2, h3, h4⟩ := file_rt hm es maxDepth hw.1.1 hw.1.2 hw.2
+    refine ⟨es, bs, rfl, ?_, h2, fun rest => ?_, fun p hp hne => ?_⟩
+    · unfold nbtSend; rw [ofRootValue_rootValue]; exact h1
+    · unfold nbtRead; rw [h3]; rfl
+    · obtain ⟨e, he⟩ := h4 p hp hne
+      exact ⟨e, by unfold nbtRead; rw [he]; rfl⟩
+  refine ⟨fun v rest hv => ?_, fun v bs hv he p hp hne => ?_⟩
+  · obtain ⟨_, bs, _, h1, h2, h3, _⟩ := key v hv
+    exact ⟨bs, h1, h2, h3 rest⟩
+  · obtain ⟨_, bs', _, h1, _, _, h4⟩ := key v hv
+    have : bs = bs' := by
+      have := he.symm.trans h1
+      cases this; rfl
+    subst this
+    exact h4 p hp hne
+
+/-- strict UTF-8 obeys the law asked of `mutf8` -/
+theorem utf8Law : Mutf8Law Mutf8.utf8 :=
+  ⟨fun s => by
+    show (match utf8Decode (utf8 s) with
+      | some s => Except.ok s
+      | none => Except.error Err.decode) = _
+    rw [utf8_roundtrip], by decide +kernel⟩
+
+/-! ## decidable equality of tags (a nested inductive: not derivable) -/
+
+mutual
+  def Tag.eqb : Tag → Tag → Bool
+    | .end_ a, .end_ b => a == b
+    | .byte a, .byte b => a == b
+    | .short a, .short b => a == b
+    | .int a, .int b => a == b
+    | .long a, .long b => a == b
+    | .float a, .float b => a == b
+    | .double a, .double b => a == b
+    | .byteArray a, .byteArray b => a == b
+    | .string a, .string b => a == b
+    | .list t a, .list u b => t == u && tagsEqb a b
+    | .compound a, .compound b => entriesEqb a b
+    | .intArray a, .intArray b => a == b
+    | .longArray a, .longArray b => a == b
+    | _, _ => false
+  def tagsEqb : List Tag → List Tag → Bool
+    | [], [] => true
+    | a :: as, b :: bs => Tag.eqb a b && tagsEqb as bs
+    | _, _ => false
+  def entriesEqb : Entries → Entries → Bool
+    | [], [] => true
+    | (k, a) :: as, (l, b) :: bs => k == l && Tag.eqb a b && entriesEqb as bs
+    | _, _ => false
+end
+
+mutual
+  theorem Tag.eqb_sound : ∀ a b : Tag, Tag.eqb a b = true → a = b
+    | .end_ a, b, h => by cases b <;> simp [Tag.eqb] at h; rw [h]
+    | .byte a, b, h => by cases b <;> simp [Tag.eqb] at h; rw [h]
+    | .short a, b, h => by cases b <;> simp [Tag.eqb] at h; rw [h]
+    | .int a, b, h => by cases b <;> simp [Tag.eqb] at h; rw [h]
+    | .long a, b, h => by cases b <;> simp [Tag.eqb] at h; rw [h]
+    | .float a, b, h => by cases b <;> simp [Tag.eqb] at h; rw [h]
+    | .double a, b, h => by cases b <;> simp [Tag.eqb] at h; rw [h]
+    | .byteArray a, b, h => by cases b <;> simp [Tag.eqb] at h; rw [h]
+    | .string a, b, h => by cases b <;> simp [Tag.eqb] at h; rw [h]
+    | .intArray a, b, h => by cases b <;> simp [Tag.eqb] at h; rw [h]
+    | .longArray a, b, h => by cases b <;> simp [Tag.eqb] at h; rw [h]
+    | .list t a, .list u b, h => by
+      simp only [Tag.eqb, Bool.and_eq_true, beq_iff_eq] at h
+      rw [h.1, tagsEqb_sound a b h.2]
+    | .compound a, .compound b, h => by
+      simp only [Tag.eqb] at h
+      rw [entriesEqb_sound a b h]
+    | .list _ _, .end_ _, h | .list _ _, .byte _, h | .list _ _, .short _, h | .list _ _, .int _, h
+    | .list _ _, .long _, h | .list _ _, .float _, h | .list _ _, .double _, h
+    | .list _ _, .byteArray _, h | .list _ _, .string _, h | .list _ _, .compound _, h
+    | .list _ _, .intArray _, h | .list _ _, .longArray _, h
+    | .compound _, .end_ _, h | .compound _, .byte _, h | .compound _, .short _, h
+    | .compound _, .int _, h | .compound _, .long _, h | .compound _, .float _, h
+    | .compound _, .double _, h | .compound _, .byteArray _, h | .compound _, .string _, h
+    | .compound _, .list _ _, h | .compound _, .intArray _, h | .compound _, .longArray _, h => by
+      simp [Tag.eqb] at h
+  theorem tagsEqb_sound : ∀ a b : List Tag, tagsEqb a b = true → a = b
+    | [], [], _ => rfl
+    | a :: as, b :: bs, h => by
+      simp only [tagsEqb, Bool.and_eq_true] at h
+      rw [Tag.eqb_sound a b h.1, tagsEqb_sound as bs h.2]
+    | [], _ :: _, h | _ :: _, [], h => by simp [tagsEqb] at h
+  theorem entriesEqb_sound : ∀ a b : Entries, entriesEqb a b = true → a = b
+    | [], [], _ => rfl
+    | (k, a) :: as, (l, b) :: bs, h => by
+      simp only [entriesEqb, Bool.and_eq_true, beq_iff_eq] at h
+      rw [h.1.1, Tag.eqb_sound a b h.1.2, entriesEqb_sound as bs h.2]
+    | [], _ :: _, h | _ :: _, [], h => by simp [entriesEqb] at h
+end
+
+mutual
+  theorem Tag.eqb_refl : ∀ a : Tag, Tag.eqb a a = true
+    | .end_ _ | .byte _ | .short _ | .int _ | .long _ | .float _ | .double _ | .byteArray _
+    | .string _ | .intArray _ | .longArray _ => by simp [Tag.eqb]
+    | .list _ a => by simp only [Tag.eqb, beq_self_eq_true, Bool.true_and]; exact tagsEqb_refl a
+    | .compound a => by simp only [Tag.eqb]; exact entriesEqb_refl a
+  theorem tagsEqb_refl : ∀ a : List Tag, tagsEqb a a = true
+    | [] => rfl
+    | a :: as => by simp only [tagsEqb, Tag.eqb_refl a, tagsEqb_refl as, Bool.and_self]
+  theorem entriesEqb_refl : ∀ a : Entries, entriesEqb a a = true
+    | [] => rfl
+    | (k, a) :: as => by
+      simp only [entriesEqb, beq_self_eq_true, Tag.eqb_refl a, entriesEqb_refl as, Bool.and_self]
+end
+
+instance decEqTag : DecidableEq Tag := fun a b =>
+  if h : Tag.eqb a b = true then isTrue (Tag.eqb_sound a b h)
+  else isFalse fun e => h (e ▸ Tag.eqb_refl a)
+
+theorem nbtSend_rootValue (m : Mutf8) (name : String) (es : Entries) :
+    nbtSend m (rootValue name es) = saveFile m "" es := by
+  unfold nbtSend; rw [ofRootValue_rootValue]
+
+/-- the empty dict is in the domain, whatever `mutf8` is -/
+theorem nbtDom_empty (m : Mutf8) : nbtDom m (rootValue "" []) :=
+  (nbtDom_iff m _).mpr ⟨[], rfl, rfl⟩
+
+/-! ## the new codec is a conservative extension: NBT-free types are untouched -/
+
+theorem encode_with_eq (n : NbtCodec) : ∀ t : WType, t.hasNbt = false →
+    ∀ v, encode (realCustomWith n) t v = encode realCustom t v := by
+  intro t
+  induction t with
+  | array l t ih =>
+    intro h v
+    have e : encode (realCustomWith n) t = encode realCustom t :=
+      funext (ih (by simpa [WType.hasNbt] using h))
+    cases v <;> simp only [encode, e]
+  | custom c =>
+    intro h v
+    exact realCustomWith_enc n c (by rintro rfl; simp [WType.hasNbt] at h) v
+  | _ => intro _ v; cases v <;> rfl
+
+theorem decode_with_eq (n : NbtCodec) : ∀ t : WType, t.hasNbt = false →
+    ∀ bs, decode (realCustomWith n) t bs = decode realCustom t bs := by
+  intro t
+  induction t with
+  | array l t ih =>
+    intro h bs
+    have e : decode (realCustomWith n) t = decode realCustom t :=
+      funext (ih (by simpa [WType.hasNbt] using h))
+    simp only [decode, e]
+  | custom c =>
+    intro h bs
+    exact realCustomWith_dec n c (by rintro rfl; simp [WType.hasNbt] at h) bs
+  | _ => intro _ bs; rfl
+
+theorem encodeFields_with_eq (n : NbtCodec) : ∀ (L : Layout), Layout.hasNbt L = false →
+    ∀ vals, encodeFields (realCustomWith n) L vals = encodeFields realCustom L vals := by
+  intro L
+  induction L with
+  | nil => intro _ vals; cases vals <;> rfl
+  | cons f L ih =>
+    intro h vals
+    obtain ⟨nm, t⟩ := f
+    simp only [Layout.hasNbt, List.any_cons, Bool.or_eq_false_iff] at h
+    cases vals with
+    | nil => rfl
+    | cons v vs =>
+      simp only [encodeFields, encode_with_eq n t h.1 v, ih h.2 vs]
+
+theorem decodeFields_with_eq (n : NbtCodec) : ∀ (L : Layout), Layout.hasNbt L = false →
+    ∀ bs, decodeFields (realCustomWith n) L bs = decodeFields realCustom L bs := by
+  intro L
+  induction L with
+  | nil => intro _ bs; rfl
+  | cons f L ih =>
+    intro h bs
+    obtain ⟨nm, t⟩ := f
+    simp only [Layout.hasNbt, List.any_cons, Bool.or_eq_false_iff] at h
+    have e : decodeFields (realCustomWith n) L = decodeFields realCustom L := funext (ih h.2)
+    simp only [decodeFields, decode_with_eq n t h.1, e]
+
+/-! ## checkers for the vectors tabulated from the live code -/
+
+/-- the field layout of class `cls` of table `table` under protocol `v` -/
+def layoutAt (lays : LayoutCheck.LayoutTables) (table cls : String) (v : Nat) : Option Layout := do
+  let rows ← lays.lookup table
+  let vars ← rows.lookup cls
+  let var ← vars.find? fun var => var.2.contains v
+  var.1
+
+/-- a row of `Gen.nbtPacketVectors`: the live round trip succeeded, the class has an NBT layout at that
+version in the layout table, the model writes the same bytes and reads the values back exactly -/
+def packetRowOk (cc : CustomCodec) (lays : LayoutCheck.LayoutTables)
+    (row : String × String × Nat × List Value × Bytes × Bool) : Bool :=
+  match layoutAt lays row.1 row.2.1 row.2.2.1 with
+  | none => false
+  | some L =>
+    row.2.2.2.2.2 && Layout.hasNbt L &&
+    decide (encodeFields cc L row.2.2.2.1 = .ok row.2.2.2.2.1) &&
+    match decodeFields cc L row.2.2.2.2.1 with
+    | .ok (vs, []) => valsEqb vs row.2.2.2.1
+    | _ => false
 
 end Nbt
 end PyCraft
